@@ -6,7 +6,13 @@ use nodejs_semver::{Identifier, Range, Version};
 
 /// the crate may panic on a generated text (that is what C06 looks for): generator-side calls go
 /// through these wrappers so that the harness survives and the panic is reported by the op itself
+thread_local! {
+    /// the last text the generator handed to the crate (for attributing a panic inside generator-side crate calls)
+    pub static LAST_TEXT: std::cell::RefCell<(char, String)> = std::cell::RefCell::new((' ', String::new()));
+}
+
 pub fn try_range(t: &str) -> Result<Range, ()> {
+    LAST_TEXT.with(|l| *l.borrow_mut() = ('r', t.to_string()));
     if t == crate::ANY {
         return std::panic::catch_unwind(Range::any).map_err(|_| ());
     }
@@ -17,6 +23,7 @@ pub fn try_range(t: &str) -> Result<Range, ()> {
 }
 
 pub fn try_version(t: &str) -> Result<Version, ()> {
+    LAST_TEXT.with(|l| *l.borrow_mut() = ('v', t.to_string()));
     match std::panic::catch_unwind(|| Version::parse(t)) {
         Ok(Ok(v)) => Ok(v),
         _ => Err(()),
@@ -1169,6 +1176,34 @@ pub fn run_stream(name: &str, thorough: bool, rng: &mut Rng, o: &mut Out) {
             }
         }
         "related" => {
+            // carry neighbours: a component that is exactly a power of ten or two (the radix of a packed or
+            // positional key) against the version in which the next component has moved on — `1.2.R` and `1.3.0`
+            let mut radixes: Vec<u64> = (1..=15).map(|k| 10u64.pow(k)).collect();
+            radixes.extend((1..=49).map(|k| 1u64 << k));
+            for r in radixes {
+                if r > MAX - 2 {
+                    continue;
+                }
+                let m = 1 + rng.below(3);
+                for (lo, hi) in [
+                    (format!("{}.2.{}", m, r), format!("{}.3.0", m)),
+                    (format!("{}.{}.0", m, r), format!("{}.0.0", m + 1)),
+                    (format!("{}.2.{}", m, r - 1), format!("{}.3.0", m)),
+                ] {
+                    let pairs = [
+                        (format!(">={}", lo), format!("<{}", hi)),
+                        (format!(">{}", lo), format!("<={}-0", hi)),
+                        (format!("<={}", lo), format!(">={}", hi)),
+                        (format!(">={} <{}", lo, hi), format!("{}", lo)),
+                    ];
+                    for (tx, ty) in pairs {
+                        if let (Ok(rx), Ok(ry)) = (try_range(&tx), try_range(&ty)) {
+                            o.setops(&tx, &rx, &ty, &ry);
+                            o.setops(&ty, &ry, &tx, &rx);
+                        }
+                    }
+                }
+            }
             // semantic coincidences: comparators written differently whose bounds meet after desugaring
             // (`~1.2` / `<1.3.0-0` / `1.2.x` / `>=1.2.0` / `1.2.3 - 1.3` …), paired with each other
             for _ in 0..700 * scale {
